@@ -361,6 +361,17 @@ func VerifC11MergeChunks() {
 		b2[j] = vplaced("u" + string(rune('0'+j)))
 	}
 	bufs := [][][]ventry{b1, {b2}}
+	if rt.Pick("big-chunk-in-later-buffer", 2) == 1 {
+		// the large chunk sits in the LATER buffer and its first slot changes a key that an earlier
+		// buffer may also hold: first slot = update or delete (symbolic), the rest adds
+		big := vramp(0x10, 13, 300)
+		kind := vUpd + rt.Choice("bigkind", 2)
+		big[0] = ventry{big[0].key, (300 & Mask) | vflags2(kind), kind, true}
+		bufs = [][][]ventry{{b2}, {big, {t}}}
+		if t.key <= "\x28" {
+			rt.Assume(false)
+		}
+	}
 	if rt.Thorough() && rt.Pick("third", 2) == 1 {
 		bufs = append(bufs, [][]ventry{{vplaced("w")}})
 	}
